@@ -21,6 +21,8 @@
 (*                       disagrees with the contents / snappy CRC) an      *)
 (*                       error is reported, and before it only a prefix of *)
 (*                       the written items;                                *)
+(*          "named_ends": as "named", and end of stream is reached within   *)
+(*                       the calls made (count / size off by one);         *)
 (*          "io":        an I/O error injected at some read call: prefix   *)
 (*                       of the written items, the error reported ONCE,    *)
 (*                       then end of stream;                               *)
@@ -70,6 +72,13 @@ RunAllowed(e) ==
               LET k == FirstIdx(rs, "err") IN
               /\ k > 0
               /\ IsPrefixOfWritten(Items(SubSeq(rs, 1, k - 1)), n)
+         [] e.damage = "named_ends" ->
+              \* a declared count or size that is off by one: as "named", and the reader gets over it - the calls made (as many as there are
+              \* values, plus a margin) reach end of stream instead of reporting the same error for ever
+              LET k == FirstIdx(rs, "err") IN
+              /\ k > 0
+              /\ IsPrefixOfWritten(Items(SubSeq(rs, 1, k - 1)), n)
+              /\ rs[Len(rs)].r = "none"
          [] e.damage = "io" ->
               /\ IsPrefixOfWritten(Items(rs), n)
               /\ Cardinality({i \in 1..Len(rs) : rs[i].r = "err"}) <= 1
